@@ -178,6 +178,19 @@ func NewTrie() util.MerklePatriciaTrieI {
 	return &recorder{MerklePatriciaTrieI: real}
 }
 
+// Fork returns an independent copy of a block state: what a child block starts from.
+func Fork(t util.MerklePatriciaTrieI) util.MerklePatriciaTrieI {
+	switch t := t.(type) {
+	case *ModelMPT:
+		return t.Child()
+	case *recorder:
+		_, tc := statecache.NewBlockTxnCaches(statecache.NewStateCache(), statecache.Block{Round: 1, Hash: "h1", PrevHash: "h0"})
+		tdb := util.NewLevelNodeDB(util.NewMemoryNodeDB(), t.GetNodeDB(), false)
+		return &recorder{MerklePatriciaTrieI: util.NewMerklePatriciaTrie(tdb, t.GetVersion(), t.GetRoot(), tc)}
+	}
+	panic("symstate: Fork of a foreign trie")
+}
+
 // Writes lists the trie paths inserted or deleted so far.
 func Writes(t util.MerklePatriciaTrieI) []string {
 	switch t := t.(type) {
@@ -340,4 +353,46 @@ func RoundTrip(label string, x, fresh util.MPTSerializable) {
 	sym.Assert(sym.DeepEqual(x, fresh), label+": the decoded value equals the stored one")
 	b2, err := fresh.MarshalMsg(nil)
 	sym.Assert(err == nil && sym.DeepEqual(b, b2), label+": re-encoding the decoded value yields identical bytes")
+}
+
+// CloneIsolated checks the cache-entry discipline for one cacheable entity: a clone equals the
+// original; overwriting every numeric leaf of the clone (what a contract does to an object a
+// read returned) leaves the original's stored form unchanged; and, through the real
+// TransactionCache exactly as StateContext.GetTrieNode uses it (Get hands out a clone, the
+// reader's object is filled with CopyFrom), a read equals what was stored and mutating the
+// reader's object changes neither the stored entry nor what the next read returns.
+func CloneIsolated(label string, x interface {
+	util.MPTSerializable
+	statecache.Value
+}, fresh statecache.Value) {
+	before, err := x.MarshalMsg(nil)
+	if err != nil {
+		sym.Fail(label + " encodes")
+		return
+	}
+	c := x.Clone()
+	sym.Cover(label)
+	sym.Assert(sym.DeepEqual(interface{}(x), interface{}(c)), label+": a cache clone equals the original")
+	sym.Havoc(c)
+	after, _ := x.MarshalMsg(nil)
+	sym.Assert(sym.DeepEqual(before, after), label+": mutating a clone never changes the original")
+	// the read path of StateContext.GetTrieNode over the real transaction cache
+	tc := statecache.NewEmpty()
+	tc.Set("k", x)
+	cv, ok := tc.Get("k")
+	if !ok || !fresh.CopyFrom(cv) {
+		sym.Fail(label + ": a cached entry is served and CopyFrom accepts its own type")
+		return
+	}
+	sym.Assert(sym.DeepEqual(interface{}(x), interface{}(fresh)), label+": a read served from the cache equals the stored value")
+	sym.Havoc(fresh)
+	after2, _ := x.MarshalMsg(nil)
+	sym.Assert(sym.DeepEqual(before, after2), label+": mutating a value a read returned never changes the object that was stored")
+	cv2, ok := tc.Get("k")
+	if !ok {
+		sym.Fail(label + ": the entry is still served")
+		return
+	}
+	again, _ := cv2.(util.MPTSerializable).MarshalMsg(nil)
+	sym.Assert(sym.DeepEqual(before, again), label+": mutating a value a read returned never changes what later reads return")
 }
